@@ -9785,6 +9785,17 @@ func (p *parser) substituteSingleUseSymbolInExpr(
 			// Do not substitute into an assignment position
 
 		default:
+			// Do not substitute an identifier directly into a "typeof" operand.
+			// Reading an undeclared identifier throws a ReferenceError but using
+			// it as the operand of "typeof" does not.
+			if e.Op == js_ast.UnOpTypeof {
+				if id, ok := e.Value.Data.(*js_ast.EIdentifier); ok && id.Ref == ref {
+					if _, ok := replacement.Data.(*js_ast.EIdentifier); ok {
+						return expr, substituteFailure
+					}
+				}
+			}
+
 			if value, status := p.substituteSingleUseSymbolInExpr(e.Value, ref, replacement, replacementCanBeRemoved); status != substituteContinue {
 				e.Value = value
 				return expr, status
